@@ -167,8 +167,10 @@ func c16dryRun(c *Ctx, fn *ssa.Function, isAPI func(ssa.CallInstruction) bool, t
 		reach := an.Explore(fn, an.After(w), nil, nil)
 		var bad []string
 		for _, ret := range reach.Returns() {
-			if reach.EvalAt(ret.Results[0], ret) != an.True {
-				bad = append(bad, c.InstrPos(ret))
+			for _, alt := range reach.Alts(ret) {
+				if reach.EvalAlt(alt, 0) != an.True {
+					bad = append(bad, c.InstrPos(ret))
+				}
 			}
 		}
 		r.Check(len(bad) == 0, "PATH", sprintf("%s/no-refusal-after-count#%d", fkey(fn), i+1), c.InstrPos(w), "after counting, only 'true' is returned",
@@ -215,8 +217,10 @@ func c16arbitrator(c *Ctx) {
 			reachF := an.Explore(fn, nil, nil, func(in ssa.Instruction) bool { return in == ssa.Instruction(first[0]) })
 			early := ""
 			for _, ret := range reachF.Returns() {
-				if reachF.EvalAt(ret.Results[0], ret) != an.False {
-					early = c.InstrPos(ret)
+				for _, alt := range reachF.Alts(ret) {
+					if reachF.EvalAlt(alt, 0) != an.False {
+						early = c.InstrPos(ret)
+					}
 				}
 			}
 			r.Check(early == "", "PATH", fkey(fn)+"/no-accept-before-duplicate-filter", c.InstrPos(first[0]), "no pod is accepted before the duplicate-job filter ran", "Filter can accept a pod (return at "+early+") without filterExistingPodMigrationJob having run: a pod that already has a live migration job gets a second one")
@@ -308,8 +312,10 @@ func c16arbitrator(c *Ctx) {
 			reach := an.Explore(fn, an.After(bo), an.Facts{bo: an.True}, nil)
 			allFalse := true
 			for _, ret := range reach.Returns() {
-				if reach.EvalAt(ret.Results[0], ret) != an.False {
-					allFalse = false
+				for _, alt := range reach.Alts(ret) {
+					if reach.EvalAlt(alt, 0) != an.False {
+						allFalse = false
+					}
 				}
 			}
 			r.Check(bo.Op == token.GEQ && allFalse, "COMPARE", key, c.InstrPos(bo), "refused when count >= limit", sprintf("the %s test is '%s' and a true outcome leads only to refusal: %v - with '>' one job more than the configured maximum is admitted", marker, bo.Op, allFalse))
@@ -442,8 +448,10 @@ func c16arbitrator(c *Ctx) {
 		reach := an.Explore(fn, nil, facts, nil)
 		var bad []string
 		for _, ret := range reach.Returns() {
-			if reach.EvalAt(ret.Results[0], ret) != an.False {
-				bad = append(bad, c.InstrPos(ret))
+			for _, alt := range reach.Alts(ret) {
+				if reach.EvalAlt(alt, 0) != an.False {
+					bad = append(bad, c.InstrPos(ret))
+				}
 			}
 		}
 		r.Check(n == 1 && len(bad) == 0, "PATH", fkey(fn)+"/isFailed-only-nonretryable", c.Pos(fn.Pos()), "a job fails only when the non-retryable chain refuses it",
